@@ -41,8 +41,16 @@ def lattice_defn(points):
     default = {"none": {"k": "none"}, "poly": poly([(rat(1, 2), 0), (rat(3), 1), (rat(-1, 4), 2)]), "spline": spl}[dc]
     cc = g("ContextCalibratorList", "none")
     ctxs = []
+    cm = g("ContextMatch", "comparisons")
+    if cm == "boolean-expression" and cc == "none":
+        cc = "one"
     if cc in ("one", "two"):
-        ctxs.append({"crit": [cmp("N", "==", 1, g("Comparison.useCalibratedValue", "true") == "true")], "cal": poly([(rat(5), 0)])})
+        c1 = [cmp("N", "==", 1, g("Comparison.useCalibratedValue", "true") == "true")]
+        if cm == "boolean-expression":
+            c1 = [{"k": "or", "conds": [{"k": "cond", "l": "N", "lcal": True, "op": "==", "rk": "lit", "r": "", "rcal": False, "lit": crit.lit_num(False, 1)},
+                                        {"k": "cond", "l": "SEQF", "lcal": False, "op": "==", "rk": "lit", "r": "", "rcal": False, "lit": crit.lit_num(False, 0)}],
+                   "groups": []}]
+        ctxs.append({"crit": c1, "cal": poly([(rat(5), 0)])})
     if cc == "two":
         ctxs.append({"crit": [cmp("N", ">=", 2), cmp("SEQF", "!=", 0)], "cal": spl})
     it["cal"] = {"default": default, "context": ctxs}
@@ -56,7 +64,13 @@ def lattice_defn(points):
     slope, icpt = {"none": (None, 0), "8x+0": (8, 0), "8x-8": (8, -8), "0x+16": (0, 16), "1x+3": (1, 3), "1x+0": (1, 0)}[adj]
     rcal = g("ParameterInstanceRef.useCalibratedValue", "true") == "true"
     ls = {"k": "dyn", "ref": "N", "cal": rcal, "adj": slope is not None, "slope": slope or 0, "icpt": icpt}
-    xdoc.add_param(d, "BLOB", xdoc.ptype_sb({"k": "bin", "len": ls, "delim": WHOLE, "codec": ""}))
+    look1 = {"k": "lookup", "entries": [{"items": [cmp("N", "==", 1)], "val": 8}, {"items": [cmp("N", ">=", 2)], "val": 16},
+                                         {"items": [cmp("N", "==", 0)], "val": 24}]}
+    look2 = {"k": "lookup", "entries": [{"items": [cmp("N", ">=", 1), cmp("N", "<", 3)], "val": 8},
+                                         {"items": [cmp("N", ">=", 3), cmp("SEQF", "!=", 9, False)], "val": 16},
+                                         {"items": [cmp("N", "==", 0), cmp("APID", "==", 5)], "val": 24}]}
+    bl = {"dynamic": ls, "fixed": {"k": "fixed", "n": 16}, "lookup": look1, "lookup-lists": look2}[g("BinaryLength", "dynamic")]
+    xdoc.add_param(d, "BLOB", xdoc.ptype_sb({"k": "bin", "len": bl, "delim": WHOLE, "codec": ""}))
     codec = g("StringDataEncoding.encoding", "UTF-8")
     lead, term = g("LeadingSize", "none"), g("TerminationChar", "none")
     if term == "5800":
@@ -69,11 +83,17 @@ def lattice_defn(points):
     elif term != "none":
         delim = {"k": "term", "tc": list(bytes.fromhex(term)), "tag": 0, "unit": 2 if len(term) == 4 else 1}
     xdoc.add_param(d, "TXT", xdoc.ptype_sb({"k": "str", "len": {"k": "fixed", "n": 48}, "delim": delim, "codec": codec}))
-    xdoc.add_param(d, "TXT2", xdoc.ptype_sb({"k": "str", "len": dict(ls), "delim": WHOLE, "codec": "US-ASCII"}))
+    sl = {"dynamic": dict(ls), "lookup": look1, "lookup-lists": look2}[g("StringLength", "dynamic")]
+    xdoc.add_param(d, "TXT2", xdoc.ptype_sb({"k": "str", "len": sl, "delim": WHOLE, "codec": "US-ASCII"}))
     tcal = g("TimeEncoding.scale/offset", "none")
-    tdef = {"none": {"k": "none"}, "offset+scale": poly([(rat(5, 2), 0), (rat(1, 4), 1)]), "scale": poly([(rat(2), 1)])}[tcal]
+    tdef = {"none": {"k": "none"}, "offset+scale": poly([(rat(5, 2), 0), (rat(1, 4), 1)]), "scale": poly([(rat(2), 1)]),
+            # polynomials the Encoding element's scale / offset attributes cannot express
+            "quadratic": poly([(rat(1, 2), 2)]), "offset+scale+quadratic": poly([(rat(5, 2), 0), (rat(1, 4), 1), (rat(1, 2), 2)]),
+            "offset+quadratic": poly([(rat(5, 2), 0), (rat(1, 2), 2)]), "constant": poly([(rat(5, 2), 0)])}[tcal]
     tt = xdoc.ptype_num("abstime", xdoc.numeric_enc("int", 8), {"default": tdef, "context": []}, unit=g("Unit", ""))
     tt["epoch"] = g("ReferenceTime.Epoch", "")
+    if g("ReferenceTime.OffsetFrom", ""):
+        tt["offsetFrom"] = g("ReferenceTime.OffsetFrom", "")
     xdoc.add_param(d, "TM", tt)
     en = xdoc.ptype_num("enum", xdoc.numeric_enc("int", 2), enum=[{"raw": crit.tv_int(v), "label": f"L{v}"} for v in (0, 1, 3)])
     xdoc.add_param(d, "EN", en)
@@ -93,7 +113,11 @@ def lattice_defn(points):
     shape = g("BooleanExpression.shape", "condition")
     bx = {"condition": pp, "and": {"k": "and", "conds": [pp, pl], "groups": []}, "or": {"k": "or", "conds": [pp, pq], "groups": []},
           "and-of-or": {"k": "and", "conds": [pl], "groups": [{"k": "or", "conds": [pp, pq], "groups": []}]},
-          "or-of-and": {"k": "or", "conds": [pq], "groups": [{"k": "and", "conds": [pp, pl], "groups": []}]}}[shape]
+          "or-of-and": {"k": "or", "conds": [pq], "groups": [{"k": "and", "conds": [pp, pl], "groups": []}]},
+          # two sibling groups of the other kind
+          "and-of-two-ors": {"k": "and", "conds": [], "groups": [{"k": "or", "conds": [pp, pq], "groups": []}, {"k": "or", "conds": [pl, pq], "groups": []}]},
+          "or-of-two-ands": {"k": "or", "conds": [], "groups": [{"k": "and", "conds": [pp, pl], "groups": []}, {"k": "and", "conds": [pq, pl], "groups": []},
+                                                                 {"k": "and", "conds": [pp, pq], "groups": []}]}}[shape]
     xdoc.add_param(d, "BXV", uint(8))
     xdoc.add_container(d, "BX", [("p", "BXV")], base="MAIN", crit_list=[bx])
     return d
